@@ -441,6 +441,15 @@ func raceVariant(p *dprop) *dprop {
 	q := *p
 	q.Sub = p.Sub + "-race"
 	q.Rule = "the same generator and invariants as " + p.Sub + ", run under the Go race detector (halt_on_error): a data race inside the scheduler or between task goroutines is reported with the case in flight"
+	if p.ID != "C15" {
+		// buffered output belongs to C15: a race in the buffer handling must not be attributed to this property
+		gen := p.Gen
+		q.Gen = func(t *rapid.T) *DagCase {
+			c := gen(t)
+			c.Buffered, c.SinkFails = false, false
+			return c
+		}
+	}
 	q.register()
 	return &q
 }
